@@ -151,12 +151,23 @@ def _subst(text, tparams):
 
 
 def _apply_rules(text, rules, what):
+    """rules: [regex, repl, expected_min] or [regex, repl, expected_min, 'strict'].
+    A rule that fires less often than expected is an extraction failure only when marked 'strict' (rules that
+    REMOVE or NEUTRALISE semantics, e.g. dropping lock calls).  For plain translation rules under-firing is
+    recorded in the report but tolerated: the construct they translate is not valid C, so if it is still
+    present the compilation fails (exit 2), and if it is gone (the code was changed) the changed code is what
+    gets verified - a changed statement must become a verified difference, not an extraction failure."""
     fired = []
-    for rx, repl, mn in rules:
+    for rule in rules:
+        rx, repl, mn = rule[0], rule[1], rule[2]
+        strict = len(rule) > 3 and rule[3] == 'strict'
         new, n = re.subn(rx, repl, text, flags=re.M)
+        if n < mn and strict:
+            raise ExtractError('%s: strict rule %r fired %d times, expected >= %d' % (what, rx, n, mn))
+        rec = {'rule': rx, 'repl': repl, 'fired': n}
         if n < mn:
-            raise ExtractError('%s: rule %r fired %d times, expected >= %d' % (what, rx, n, mn))
-        fired.append({'rule': rx, 'repl': repl, 'fired': n})
+            rec['underfired'] = 'expected >= %d' % mn
+        fired.append(rec)
         text = new
     return text, fired
 
